@@ -1,4 +1,4 @@
 From Coq Require Import List NArith Extraction ExtrOcamlBasic.
-From DDP Require Import Rt.Heap.
+From DDP Require Import Rt.Heap Lower.Own.
 Extraction Language OCaml.
-Extraction "c05_model.ml" check_ledger balancedb.
+Extraction "c05_model.ml" check_ledger balancedb compile run_program.
